@@ -107,8 +107,10 @@ def build_oracle():
     newest = max([os.path.getmtime(f) for f in mls] + [os.path.getmtime(drv)])
     if os.path.exists(exe) and os.path.getmtime(exe) >= newest:
         return True
-    r = run(['sh', '-c', 'cp %s driver.ml && ocamlfind ocamlopt -w -a -unsafe -inline 200 $(ocamlfind ocamldep -sort *.mli *.ml) -o %s' % (drv, exe)],
-            cwd=ocdir, timeout=900)
+    # link under a temporary name and rename: a check of another property that is running the old binary keeps its
+    # open file, and nobody ever executes a half-written one
+    r = run(['sh', '-c', 'cp %s driver.ml && ocamlfind ocamlopt -w -a -unsafe -inline 200 $(ocamlfind ocamldep -sort *.mli *.ml) -o %s.new && mv -f %s.new %s'
+             % (drv, exe, exe, exe)], cwd=ocdir, timeout=900)
     with open(os.path.join(BUILD, 'logs', 'ocaml.log'), 'w') as f:
         f.write(r.stdout)
     return r.returncode == 0 and os.path.exists(exe)
@@ -260,9 +262,16 @@ def oracle(lines, timeout=3600):
     """Feed request lines to the extracted model/spec binary; returns the list of answer lines."""
     exe = os.path.join(BUILD, 'oracle')
     data = '\n'.join(lines) + '\n'
-    r = subprocess.run([exe], input=data, stdout=subprocess.PIPE, stderr=subprocess.PIPE, text=True, timeout=timeout)
+    for attempt in range(3):
+        try:
+            r = subprocess.run([exe], input=data, stdout=subprocess.PIPE, stderr=subprocess.PIPE, text=True, timeout=timeout)
+        except OSError as ex:      # e.g. ETXTBSY while a concurrent check re-links the binary
+            r = subprocess.CompletedProcess([exe], 126, '', str(ex))
+        if r.returncode == 0:
+            break
+        time.sleep(5)
     if r.returncode != 0:
-        raise RuntimeError('oracle binary failed: %s' % r.stderr[-500:])
+        raise RuntimeError('oracle binary failed (exit %s): %s' % (r.returncode, r.stderr[-500:]))
     out = r.stdout.splitlines()
     if len(out) != len(lines):
         raise RuntimeError('oracle answered %d lines for %d requests' % (len(out), len(lines)))
